@@ -15,6 +15,7 @@ func c05Extra(r *core.Run) {
 	c05R9(r)
 	c05R10(r)
 	c05R11(r)
+	c05R12(r)
 	r.Check("D4/K6/range-bound-uses-its-own-flag", "every boundary-inclusive comparison of a value with numberRange.left (resp. right) in lib/mapping – the unmarshalling validator and the marshalling one used by httpc – is made only when leftInclude (resp. rightInclude) is false: the bracket of a bound decides that bound", func(o *core.O) {
 		n := 0
 		for _, f := range p.PkgFuncs("lib/mapping") {
